@@ -380,7 +380,7 @@ func ruleC01Sections(p *Prog, r *Res) {
 		w := wantKey[n]
 		okF := w != "" && fa[w] && fb[w] && len(fa) == 1 && len(fb) == 1
 		r.Check(okF, ruleC, n+" writer comparator reads "+w, p.Pos(lit), "a:"+setString(fa)+" b:"+setString(fb), fmt.Sprintf("the lookup for %s is sorted by a:%s b:%s, expected the single key field %s on both operands: binary searches and sorted scans over this section assume that order", n, setString(fa), setString(fb), w))
-		if ok, why := comparatorOrientation(info, lit, params[0], params[1]); !ok {
+		if ok, why := comparatorOrientation(p, info, lit, params[0], params[1]); !ok {
 			r.Bad(ruleC, n+" writer comparator orientation", p.Pos(lit), why)
 		} else {
 			r.OkTrivial(ruleC, n+" writer comparator orientation", p.Pos(lit), why)
